@@ -128,29 +128,36 @@ T("C09", "twin-read-nonce-named-word-size", F, "            self.fh.seek(-4, io.
 
 # ------------------------------------------------------------------------------------------------ header length (R1)
 TELL = "    def tell(self):\n        return self.fh.tell() - (self.nonce_offset + 8)\n"
-SEEK = ("    def seek(self, offset, whence=io.SEEK_SET):\n        if whence == io.SEEK_SET:\n            return self.fh.seek(offset + self.nonce_offset + 8, whence)\n"
-        "        return self.fh.seek(offset, whence)\n")
+# seek() as it is in /repo since the repair F25 (it returns the position in the decoded data, as tell() reports it) ...
+SEEK = ("    def seek(self, offset, whence=io.SEEK_SET):\n        if whence == io.SEEK_SET:\n            offset += self.nonce_offset + 8\n        self.fh.seek(offset, whence)\n"
+        "        # report the position in the decoded data, not in the underlying file\n        return self.tell()\n")
+# ... and the same written as two forwarding returns that translate the result of the underlying seek back (base shape of several entries)
+BACK = " - (self.nonce_offset + 8)"
+TAIL2 = "        return self.fh.seek(offset, whence)" + BACK + "\n"
+SEEK2 = ("    def seek(self, offset, whence=io.SEEK_SET):\n        if whence == io.SEEK_SET:\n            return self.fh.seek(offset + self.nonce_offset + 8, whence)" + BACK + "\n" + TAIL2)
+T("C09", "twin-seek-two-forwarding-returns-translated-back", F, SEEK, SEEK2)
 PROP = ("    @property\n    def _data_start(self):\n        return self.nonce_offset + HDR_LEN\n\n")
 TELL_P = PROP + "    def tell(self):\n        raw = self.fh.tell()\n        return raw - self._data_start\n"
-SEEK_P = ("    def seek(self, offset, whence=io.SEEK_SET):\n        if whence != io.SEEK_SET:\n            return self.fh.seek(offset, whence)\n"
-          "        target = self._data_start + offset\n        return self.fh.seek(target)\n")
+SEEK_P = ("    def seek(self, offset, whence=io.SEEK_SET):\n        if whence != io.SEEK_SET:\n            return self.fh.seek(offset, whence) - self._data_start\n"
+          "        target = self._data_start + offset\n        self.fh.seek(target)\n        return self.tell()\n")
 HDR = ("logger = logging.getLogger(__name__)\n", "logger = logging.getLogger(__name__)\n\nWORD = 4\nHDR_LEN = 2 * WORD\n")
 
 T("C09", "twin-header-property-and-reversed-dispatch", F, "", "", edits=[(F, HDR[0], HDR[1]), (F, TELL, TELL_P), (F, SEEK, SEEK_P)])
 M("C09", "property-header-one-word", F, "", "", "C09.R1", edits=[(F, HDR[0], HDR[1].replace("2 * WORD", "WORD")), (F, TELL, TELL_P), (F, SEEK, SEEK_P)])
 M("C09", "reversed-dispatch-forgets-header", F, "", "", "C09.R1",
   edits=[(F, HDR[0], HDR[1]), (F, TELL, TELL_P), (F, SEEK, SEEK_P.replace("target = self._data_start + offset", "target = self.nonce_offset + offset"))])
-M("C09", "relative-seek-translated-too", F, "        return self.fh.seek(offset, whence)\n", "        return self.fh.seek(offset + self.nonce_offset + 8, whence)\n", "C09.R1")
-M("C09", "relative-seeks-ignored", F, SEEK, SEEK.replace("        return self.fh.seek(offset, whence)\n", "        return self.tell()\n"), "C09.R1")
-T("C09", "twin-seek-whence-literal", F, "        if whence == io.SEEK_SET:\n            return self.fh.seek(offset + self.nonce_offset + 8, whence)",
-  "        if 0 == whence:\n            return self.fh.seek(8 + self.nonce_offset + offset, io.SEEK_SET)")
+M("C09", "seek-forgets-header-2", F, "            offset += self.nonce_offset + 8\n        self.fh.seek(offset, whence)", "            offset += self.nonce_offset\n        self.fh.seek(offset, whence)", "C09.R1")
+M("C09", "relative-seek-translated-too", F, SEEK, SEEK2.replace(TAIL2, "        return self.fh.seek(offset + self.nonce_offset + 8, whence)" + BACK + "\n"), "C09.R1")
+M("C09", "relative-seeks-ignored", F, SEEK, SEEK2.replace(TAIL2, "        return self.tell()\n"), "C09.R1")
+T("C09", "twin-seek-whence-literal", F, SEEK, SEEK2.replace("        if whence == io.SEEK_SET:\n            return self.fh.seek(offset + self.nonce_offset + 8, whence)" + BACK,
+                                                           "        if 0 == whence:\n            return self.fh.seek(8 + self.nonce_offset + offset, io.SEEK_SET) - 8 - self.nonce_offset"))
 
-SEEK_ADJ = ("    def seek(self, offset, whence=io.SEEK_SET):\n        if whence == io.SEEK_SET:\n            offset += self.nonce_offset + 8\n        return self.fh.seek(offset, whence)\n")
+SEEK_ADJ = ("    def seek(self, offset, whence=io.SEEK_SET):\n        if whence == io.SEEK_SET:\n            offset += self.nonce_offset + 8\n        pos = self.fh.seek(offset, whence)\n        return pos - self.nonce_offset - 8\n")
 T("C09", "twin-seek-adjusts-offset-then-forwards", F, SEEK, SEEK_ADJ)
 M("C09", "seek-adjusts-offset-by-one-word", F, SEEK, SEEK_ADJ.replace("self.nonce_offset + 8", "self.nonce_offset + 4"), "C09.R1")
 M("C09", "seek-adjusts-offset-for-every-whence", F, SEEK, SEEK_ADJ.replace("        if whence == io.SEEK_SET:\n            offset +=", "        if True:\n            offset +="), "C09.R1")
 SEEK_CHAIN = ("    def seek(self, offset, whence=io.SEEK_SET):\n        if whence == io.SEEK_CUR or whence == io.SEEK_END:\n            pos = self.fh.seek(offset, whence)\n"
-              "        elif whence == io.SEEK_SET:\n            pos = self.fh.seek(self.nonce_offset + 8 + offset, io.SEEK_SET)\n        else:\n            pos = self.fh.seek(offset, whence)\n        return pos\n")
+              "        elif whence == io.SEEK_SET:\n            pos = self.fh.seek(self.nonce_offset + 8 + offset, io.SEEK_SET)\n        else:\n            pos = self.fh.seek(offset, whence)\n        return pos - (8 + self.nonce_offset)\n")
 T("C09", "twin-seek-elif-chain", F, SEEK, SEEK_CHAIN)
 M("C09", "seek-elif-chain-end-as-cur", F, SEEK, SEEK_CHAIN.replace("if whence == io.SEEK_CUR or whence == io.SEEK_END:\n            pos = self.fh.seek(offset, whence)", "if whence == io.SEEK_CUR or whence == io.SEEK_END:\n            pos = self.fh.seek(offset + 8, whence)"), "C09.R1")
 T("C09", "twin-header-class-constant", F, "", "", edits=[(F, '    EOF_SHELLCODE_MARKER = b"\\xff\\xff\\xff"\n', '    EOF_SHELLCODE_MARKER = b"\\xff\\xff\\xff"\n    HEADER_SIZE = 8\n'),
@@ -256,7 +263,7 @@ IMPORT_STRUCT = ("import logging\n", "import logging\nimport struct\n")
 T("C09", "twin-scan-while-counter-xor-of-decodes", F, "", "", edits=[(F, IMPORT_STRUCT[0], IMPORT_STRUCT[1]), (F, SCAN, SCAN_WHILE)])
 M("C09", "while-scan-skips-offset-zero", F, "", "", "C09.R4", edits=[(F, IMPORT_STRUCT[0], IMPORT_STRUCT[1]), (F, SCAN, SCAN_WHILE.replace("    i = -1\n", "    i = 0\n"))])
 M("C09", "xor-of-decodes-big-endian", F, "", "", "C09.R1", edits=[(F, IMPORT_STRUCT[0], IMPORT_STRUCT[1]), (F, SCAN, SCAN_WHILE.replace('struct.unpack("<I", nonce)', 'struct.unpack(">I", nonce)'))])
-SEEK_SHIFT = ("    def seek(self, offset, whence=io.SEEK_SET):\n        shift = self.nonce_offset + 8 if whence == io.SEEK_SET else 0\n        return self.fh.seek(offset + shift, whence)\n")
+SEEK_SHIFT = ("    def seek(self, offset, whence=io.SEEK_SET):\n        shift = self.nonce_offset + 8 if whence == io.SEEK_SET else 0\n        self.fh.seek(offset + shift, whence)\n        return self.tell()\n")
 T("C09", "twin-seek-conditional-shift", F, SEEK, SEEK_SHIFT)
 M("C09", "conditional-shift-also-for-end", F, SEEK, SEEK_SHIFT.replace("if whence == io.SEEK_SET else 0", "if whence != io.SEEK_CUR else 0"), "C09.R1")
 T("C09", "twin-init-tuple-assignment", F, INIT, "        fh.seek(nonce_offset)\n        self.initial_nonce, self.nonced_filesize = fh.read(4), fh.read(4)\n")
@@ -303,8 +310,8 @@ READ_BIO = '''    def read(self, n=-1):
 '''
 T("C09", "twin-read-bytesio-stream", F, "", "", edits=[(F, "import logging\n", "import logging\nimport os\n"), (F, READ, READ_BIO)])
 M("C09", "bytesio-giveback-one-short", F, "", "", "C09.R2", edits=[(F, "import logging\n", "import logging\nimport os\n"), (F, READ, READ_BIO.replace("self.fh.seek(-surplus, os.SEEK_CUR)", "self.fh.seek(1 - surplus, os.SEEK_CUR)"))])
-SEEK_MATCH = ("    def seek(self, offset, whence=io.SEEK_SET):\n        match whence:\n            case io.SEEK_SET:\n                return self.fh.seek(offset + self.nonce_offset + 8, whence)\n"
-              "            case _:\n                return self.fh.seek(offset, whence)\n")
+SEEK_MATCH = ("    def seek(self, offset, whence=io.SEEK_SET):\n        match whence:\n            case io.SEEK_SET:\n                self.fh.seek(offset + self.nonce_offset + 8, whence)\n"
+              "            case _:\n                self.fh.seek(offset, whence)\n        return self.fh.tell() - self.nonce_offset - 8\n")
 T("C09", "twin-seek-match-statement", F, SEEK, SEEK_MATCH)
 M("C09", "match-statement-cur-translated", F, SEEK, SEEK_MATCH.replace("case io.SEEK_SET:", "case io.SEEK_SET | io.SEEK_CUR:"), "C09.R1")
 
@@ -387,7 +394,7 @@ T("C09", "twin-read-sentinel-del-truncation", F, READ, READ_WANT)
 M("C09", "del-truncation-missing", F, READ, READ_WANT.replace("            del buf[want:]\n", ""), "C09.R2")
 M("C09", "del-truncation-no-giveback", F, READ, READ_WANT.replace("            self.fh.seek(-excess, io.SEEK_CUR)\n", ""), "C09.R2")
 HDR_STRUCT = ('    EOF_SHELLCODE_MARKER = b"\\xff\\xff\\xff"\n', '    EOF_SHELLCODE_MARKER = b"\\xff\\xff\\xff"\n    _HEADER = struct.Struct("<II")\n')
-SEEK_TABLE = ("    def seek(self, offset, whence=io.SEEK_SET):\n        shift = {io.SEEK_SET: self.nonce_offset + self._HEADER.size}.get(whence, 0)\n        return self.fh.seek(offset + shift, whence)\n")
+SEEK_TABLE = ("    def seek(self, offset, whence=io.SEEK_SET):\n        shift = {io.SEEK_SET: self.nonce_offset + self._HEADER.size}.get(whence, 0)\n        return self.fh.seek(offset + shift, whence) - (self.nonce_offset + self._HEADER.size)\n")
 TELL_STRUCT = "    def tell(self):\n        return self.fh.tell() - (self.nonce_offset + self._HEADER.size)\n"
 T("C09", "twin-header-struct-size-dispatch-table", F, "", "", edits=[(F, IMPORT_STRUCT[0], IMPORT_STRUCT[1]), (F, HDR_STRUCT[0], HDR_STRUCT[1]), (F, TELL, TELL_STRUCT), (F, SEEK, SEEK_TABLE)])
 M("C09", "header-struct-one-word", F, "", "", "C09.R1", edits=[(F, IMPORT_STRUCT[0], IMPORT_STRUCT[1]), (F, HDR_STRUCT[0], HDR_STRUCT[1].replace("<II", "<I")), (F, TELL, TELL_STRUCT), (F, SEEK, SEEK_TABLE)])
@@ -550,8 +557,7 @@ M("C09", "look-behind-method-does-not-restore", F, "", "", "C09.R7",
 # the decoded size word cached by the constructor ("the header says how long the payload is") as the end anchor
 M("C09", "seek-end-anchored-at-size-cached-by-constructor", F, "", "", "C09.R8",
   edits=[(F, INIT, INIT + "        self.payload_size = int.from_bytes(xor(self.nonced_filesize, self.initial_nonce), \"little\")\n"),
-         (F, SEEK, SEEK.replace("        return self.fh.seek(offset, whence)\n",
-                                "        if whence == io.SEEK_END:\n            return self.fh.seek(self.nonce_offset + 8 + self.payload_size + offset)\n        return self.fh.seek(offset, whence)\n"))])
+         (F, SEEK, SEEK2.replace(TAIL2, "        if whence == io.SEEK_END:\n            return self.fh.seek(self.nonce_offset + 8 + self.payload_size + offset)" + BACK + "\n" + TAIL2))])
 # on top of the elif-chain shape: the end anchor computed in place from the header words
 M("C09", "seek-elif-chain-end-from-header-words", F, SEEK,
   SEEK_CHAIN.replace("if whence == io.SEEK_CUR or whence == io.SEEK_END:\n            pos = self.fh.seek(offset, whence)",
@@ -559,7 +565,7 @@ M("C09", "seek-elif-chain-end-from-header-words", F, SEEK,
                      "        elif whence == io.SEEK_CUR:\n            pos = self.fh.seek(offset, whence)"), "C09.R8")
 # SEEK_END served relative to the current position
 M("C09", "seek-end-served-as-relative-to-position", F, SEEK,
-  SEEK.replace("        return self.fh.seek(offset, whence)\n", "        return self.fh.seek(offset, io.SEEK_CUR)\n"), "C09.R8")
+  SEEK2.replace(TAIL2, "        return self.fh.seek(offset, io.SEEK_CUR)" + BACK + "\n"), "C09.R8")
 # SEEK_CUR rebased as an absolute seek by rebinding offset and whence together (tuple assignment)
 M("C09", "seek-cur-rebound-as-absolute", F, SEEK,
   SEEK.replace("        if whence == io.SEEK_SET:\n", "        if whence == io.SEEK_CUR:\n            offset, whence = offset, io.SEEK_SET\n        if whence == io.SEEK_SET:\n"), "C09.R8")
@@ -568,18 +574,15 @@ M("C09", "seek-end-rebound-with-constant-anchor", F, SEEK,
   SEEK.replace("        if whence == io.SEEK_SET:\n", "        if whence == io.SEEK_END:\n            whence, offset = io.SEEK_SET, offset + 4096\n        if whence == io.SEEK_SET:\n"), "C09.R8")
 # twins: the translation written as a rebinding of (offset, whence); relative seeks through quantities the underlying file reports
 T("C09", "twin-seek-tuple-rebinding", F, SEEK,
-  "    def seek(self, offset, whence=io.SEEK_SET):\n        if whence == io.SEEK_SET:\n            offset, whence = offset + self.nonce_offset + 8, io.SEEK_SET\n        return self.fh.seek(offset, whence)\n")
+  "    def seek(self, offset, whence=io.SEEK_SET):\n        if whence == io.SEEK_SET:\n            offset, whence = offset + self.nonce_offset + 8, io.SEEK_SET\n        self.fh.seek(offset, whence)\n        return self.tell()\n")
 T("C09", "twin-seek-end-measured-then-absolute", F, SEEK,
-  SEEK.replace("        return self.fh.seek(offset, whence)\n",
-               "        if whence == io.SEEK_END:\n            end = self.fh.seek(0, io.SEEK_END)\n            return self.fh.seek(end + offset)\n        return self.fh.seek(offset, whence)\n"))
+  SEEK2.replace(TAIL2, "        if whence == io.SEEK_END:\n            end = self.fh.seek(0, io.SEEK_END)\n            return self.fh.seek(end + offset)" + BACK + "\n" + TAIL2))
 T("C09", "twin-seek-cur-through-tell", F, SEEK,
-  SEEK.replace("        return self.fh.seek(offset, whence)\n",
-               "        if whence == io.SEEK_CUR:\n            return self.fh.seek(self.fh.tell() + offset)\n        return self.fh.seek(offset, whence)\n"))
+  SEEK2.replace(TAIL2, "        if whence == io.SEEK_CUR:\n            return self.fh.seek(self.fh.tell() + offset)" + BACK + "\n" + TAIL2))
 # the end measured once by the constructor (a read-only file does not grow) and used as the anchor
 T("C09", "twin-seek-end-anchored-at-end-measured-by-constructor", F, "", "",
   edits=[(F, INIT, "        self._raw_end = self.fh.seek(0, io.SEEK_END)\n" + INIT),
-         (F, SEEK, SEEK.replace("        return self.fh.seek(offset, whence)\n",
-                                "        if whence == io.SEEK_END:\n            return self.fh.seek(self._raw_end + offset)\n        return self.fh.seek(offset, whence)\n"))])
+         (F, SEEK, SEEK2.replace(TAIL2, "        if whence == io.SEEK_END:\n            return self.fh.seek(self._raw_end + offset)" + BACK + "\n" + TAIL2))])
 
 # ------------------------------------------------------------------------------------------------ wave 7
 # R2: the give-back puts the file at <position before the reads> + n - right only when at least n bytes were consumed.  With n > 0 and
@@ -615,3 +618,37 @@ M("C09", "candidate-with-zero-nonce-ends-search", F, BUILD, BUILD + "           
 # not decided (silent): tests on the candidate offset / on how much of the header is there
 T("C09", "twin-negative-candidate-skipped", F, BUILD, "            if offset < 0:\n                continue\n" + BUILD)
 T("C09", "twin-candidate-without-complete-header-skipped", F, BUILD, BUILD + "            if len(xf.nonced_filesize) < 4:\n                continue\n")
+
+# ------------------------------------------------------------------------------------------------ wave 8
+# R9 (finding F25): what seek() returns is the position tell() reports for the cursor the seek leaves behind - a file object returns
+# its new position from seek().  The returned value and tell()'s value are terms over the symbolic cursor; the result of the
+# underlying seek is a position in the *encoded* file and has to be translated back.
+HDR_S = "    def seek(self, offset, whence=io.SEEK_SET):\n"
+M("C09", "seek-returns-raw-result-after-adjusting-offset", F, SEEK, HDR_S + "        if whence == io.SEEK_SET:\n            offset += self.nonce_offset + 8\n        return self.fh.seek(offset, whence)\n", "C09.R9")
+M("C09", "seek-returns-nothing", F, "        # report the position in the decoded data, not in the underlying file\n        return self.tell()\n", "", "C09.R9")
+M("C09", "seek-returns-none-explicitly", F, "        # report the position in the decoded data, not in the underlying file\n        return self.tell()\n", "        return None\n", "C09.R9")
+M("C09", "seek-returns-position-before-the-seek", F, SEEK,
+  HDR_S + "        pos = self.tell()\n        if whence == io.SEEK_SET:\n            offset += self.nonce_offset + 8\n        self.fh.seek(offset, whence)\n        return pos\n", "C09.R9")
+M("C09", "seek-returns-offset-argument-for-every-whence", F, "        # report the position in the decoded data, not in the underlying file\n        return self.tell()\n", "        return offset\n", "C09.R9")
+M("C09", "seek-returns-raw-tell", F, "        # report the position in the decoded data, not in the underlying file\n        return self.tell()\n", "        return self.fh.tell()\n", "C09.R9")
+M("C09", "seek-result-translated-back-by-one-word", F, SEEK, SEEK2.replace(TAIL2, "        return self.fh.seek(offset, whence) - (self.nonce_offset + 4)\n"), "C09.R9")
+M("C09", "seek-result-translated-back-for-absolute-seeks-only", F, SEEK, SEEK2.replace(TAIL2, "        return self.fh.seek(offset, whence)\n"), "C09.R9")
+M("C09", "seek-elif-chain-returns-raw-result", F, SEEK, SEEK_CHAIN.replace("        return pos - (8 + self.nonce_offset)\n", "        return pos\n"), "C09.R9")
+M("C09", "seek-result-translated-back-twice", F, SEEK, SEEK_ADJ.replace("        return pos - self.nonce_offset - 8\n", "        pos -= self.nonce_offset + 8\n        return pos - self.nonce_offset - 8\n"), "C09.R9")
+M("C09", "property-shape-relative-seek-returns-raw-result", F, "", "", "C09.R9",
+  edits=[(F, HDR[0], HDR[1]), (F, TELL, TELL_P), (F, SEEK, SEEK_P.replace("            return self.fh.seek(offset, whence) - self._data_start\n", "            return self.fh.seek(offset, whence)\n"))])
+# twins: other spellings of "the position tell() reports"
+T("C09", "twin-seek-absolute-returns-its-offset", F, SEEK,
+  HDR_S + "        if whence == io.SEEK_SET:\n            self.fh.seek(offset + self.nonce_offset + 8)\n            return offset\n" + TAIL2)
+T("C09", "twin-seek-returns-own-tell-through-local", F, "        # report the position in the decoded data, not in the underlying file\n        return self.tell()\n",
+  "        where = self.tell()\n        return where\n")
+T("C09", "twin-seek-returns-raw-tell-translated", F, "        # report the position in the decoded data, not in the underlying file\n        return self.tell()\n",
+  "        raw = self.fh.tell()\n        return raw - 8 - self.nonce_offset\n")
+T("C09", "twin-tell-through-local-seek-result-translated", F, "", "",
+  edits=[(F, TELL, "    def tell(self):\n        raw_pos = self.fh.tell()\n        header = self.nonce_offset + 8\n        return raw_pos - header\n"), (F, SEEK, SEEK_ADJ)])
+T("C09", "twin-seek-returns-tell-with-key-cache-reset", F, "", "", edits=[KC_INIT, KC_RN, KC_SEEK])
+T("C09", "twin-seek-result-adjusted-in-place", F, SEEK, SEEK_ADJ.replace("        return pos - self.nonce_offset - 8\n", "        pos -= self.nonce_offset + 8\n        return pos\n"))
+SEEK_ARMS = (HDR_S + "        raw = self.fh.seek(offset + self.nonce_offset + 8) if whence == io.SEEK_SET else self.fh.seek(offset, whence)\n        return raw - (self.nonce_offset + 8)\n")
+T("C09", "twin-seek-conditional-expression-of-two-seeks", F, SEEK, SEEK_ARMS)
+M("C09", "seek-conditional-expression-returns-raw-result", F, SEEK, SEEK_ARMS.replace("        return raw - (self.nonce_offset + 8)\n", "        return raw\n"), "C09.R9")
+M("C09", "seek-conditional-expression-absolute-arm-forgets-header", F, SEEK, SEEK_ARMS.replace("self.fh.seek(offset + self.nonce_offset + 8) if", "self.fh.seek(offset + self.nonce_offset) if"), "C09.R1")
